@@ -4,8 +4,9 @@
 //! * a deterministic step counter ("fuel") that the matching code ticks, so
 //!   that an external monitor can bound a call in logical steps rather than
 //!   wall-clock time;
-//! * a per-iterator count of repeat iterations that consumed no input, so
-//!   that a monitor can observe runs of zero-width iterations directly;
+//! * a per-iterator count of repeat iterations started right after an
+//!   iteration that consumed no input, so that a monitor can observe loops
+//!   that go on without progress directly;
 //! * ablation switches that let a monitor test whether a recorded finding
 //!   explains a failure (off by default);
 //! * counters for the search shortcuts taken by `ReMatcher::matches`, so that
@@ -77,14 +78,25 @@ pub(crate) fn tick() {
     }
 }
 
-/// Counts, for one repeat iterator, the iterations that consumed no input.
-/// The largest count any iterator of this thread reached is kept for
-/// `take_zero_width_max`.
+/// Counts, for one repeat iterator, the iterations that were started directly
+/// after an iteration of the same loop that consumed no input: the loop went
+/// on although it had stopped making progress. The largest count any
+/// iterator of this thread reached is kept for `take_zero_width_max`.
 #[derive(Default)]
 pub(crate) struct ZeroWidth(u64);
 
 impl ZeroWidth {
-    /// Record an iteration of the repeated term that went from `from` to `to`.
+    /// Record that a further iteration is started after the iterations that
+    /// ended at `ends` (the last two entries delimit the previous iteration).
+    #[inline]
+    pub(crate) fn note_extension(&mut self, ends: &[usize]) {
+        if let [.., from, to] = ends {
+            self.note(*from, *to);
+        }
+    }
+
+    /// Record that a further iteration is started after one that went from
+    /// `from` to `to`.
     #[inline]
     pub(crate) fn note(&mut self, from: usize, to: usize) {
         if from == to {
